@@ -262,11 +262,16 @@ def dropPrefixTo (c : Char) : List Char → List Char
 def dropSuffix (suf s : List Char) : List Char :=
   if suf.isSuffixOf s then s.take (s.length - suf.length) else s
 
-/-- the name without the per-method macro prefix (`BTP_`, `LH_`, `F_`, `GIN_`, `SPGIST_`, `BRIN_`) and without a
-trailing `_PAGE` (hash page types): the form an inspection tool prints under a per-method heading -/
-def shortName (s : String) : String := String.ofList (dropSuffix "_PAGE".toList (dropPrefixTo '_' s.toList))
+/-- the name without the per-method macro prefix (`BTP_`, `LH_`, `F_`, `GIN_`, `SPGIST_`, `BRIN_`) — the form an
+inspection tool prints under a per-method heading.  For the hash method the trailing `_PAGE` of the four page-type
+macros (LH_OVERFLOW_PAGE, LH_BUCKET_PAGE, LH_BITMAP_PAGE, LH_META_PAGE) is dropped as well (pageinspect's
+`hash_page_type` prints them as overflow / bucket / bitmap / metapage); no other name is touched
+(LH_PAGE_HAS_DEAD_TUPLES → PAGE_HAS_DEAD_TUPLES, BRIN_EVACUATE_PAGE → EVACUATE_PAGE). -/
+def shortName (am : AM) (s : String) : String :=
+  let noPrefix := dropPrefixTo '_' s.toList
+  String.ofList (if am == .hash then dropSuffix "_PAGE".toList noPrefix else noPrefix)
 
-def shortFlagName (am : AM) (bit : Nat) : Option String := ((pgFlagNames am).lookup bit).map shortName
+def shortFlagName (am : AM) (bit : Nat) : Option String := ((pgFlagNames am).lookup bit).map (shortName am)
 
 structure PageView where
   number : Nat
@@ -286,28 +291,49 @@ structure PageView where
   lsnStr : String
 deriving Repr, DecidableEq
 
+/-- number of line pointers of a page: `PageGetMaxOffsetNumber` = (pd_lower − SizeOfPageHeaderData) / sizeof(ItemIdData) -/
+def linePointers (p : Page) : Nat := (p.lower - 24) / 4
+
+/-- The number of items a page holds, from PostgreSQL's side:
+  * pages with a line pointer array (B-tree, hash bucket/overflow/unused, GiST, SP-GiST non-meta, BRIN regular pages, GIN
+    entry-tree and pending-list pages — GIN pages without GIN_DATA): the number of line pointers;
+  * pages WITHOUT one hold no items: every metapage (`pd_lower` only marks the end of the metadata: `_bt_initmetapage`
+    sets it to 24 + sizeof(BTMetaPageData) = 72, which is not 12 items), hash bitmap pages (LH_BITMAP_PAGE: a bitmap),
+    BRIN range-map pages (an array of TIDs);
+  * GIN posting-tree pages (GIN_DATA): `maxoff` ("number of PostingItems on GIN_DATA & ~GIN_LEAF page", ginblock.h; the
+    number of item pointers on an uncompressed leaf).  On a compressed leaf (GIN_COMPRESSED — a flag only data leaf
+    pages carry) PostgreSQL does not maintain any count; the stored `maxoff` field is reported as stored. -/
+def itemCountOf (p : Page) : Nat :=
+  match p.op with
+  | .btree _ _ _ f _ => if f.testBit 3 then 0 else linePointers p
+  | .hash _ _ _ f => if f.testBit 3 || f.testBit 2 then 0 else linePointers p
+  | .gist .. => linePointers p
+  | .gin _ m f => if f.testBit 3 then 0 else if f.testBit 0 || f.testBit 7 then m else linePointers p
+  | .spgist f _ _ => if f.testBit 0 then 0 else linePointers p
+  | .brin _ _ _ t => if t == brinMeta || t == brinRevmap then 0 else linePointers p
+
 /-- the page-level report.  Conventions of the tool's record that the Spec adopts (they lose no stored field
-the property names): hash pages report the bucket number in `level` when the page is a bucket page; the item
-count of a GIN page is `maxoff`; methods without sibling links / levels report 0 there. -/
+the property names): hash pages report the bucket number in `level` when the page is a bucket page; methods without
+sibling links / levels report 0 there.  The item count is `itemCountOf`. -/
 def pageView (num : Nat) (p : Page) : PageView :=
   let lsn := p.xlogid * 2 ^ 32 + p.xrecoff
   let base : PageView :=
     { number := num, am := p.op.am, flags := p.op.flags, isMeta := false, isLeaf := false, isRoot := false, isDeleted := false,
-      level := 0, prev := 0, next := 0, right := 0, itemCount := (p.lower - 24) / 4, freeSpace := p.upper - p.lower,
+      level := 0, prev := 0, next := 0, right := 0, itemCount := itemCountOf p, freeSpace := p.upper - p.lower,
       lsn := lsn, lsnStr := lsnText lsn }
   match p.op with
   | .btree pr nx lv f _ =>
     { base with prev := pr, next := nx, level := lv, isLeaf := f.testBit 0, isRoot := f.testBit 1, isDeleted := f.testBit 2, isMeta := f.testBit 3 }
   | .hash pr nx b f => { base with prev := pr, next := nx, level := if f.testBit 1 then b else 0, isMeta := f.testBit 3 }
   | .gist _ r f => { base with right := r, isLeaf := f.testBit 0, isDeleted := f.testBit 1 }
-  | .gin r m f => { base with right := r, itemCount := m, isLeaf := f.testBit 1, isDeleted := f.testBit 2, isMeta := f.testBit 3 }
+  | .gin r _ f => { base with right := r, isLeaf := f.testBit 1, isDeleted := f.testBit 2, isMeta := f.testBit 3 }
   | .spgist f _ _ => { base with isMeta := f.testBit 0, isDeleted := f.testBit 1, isLeaf := f.testBit 2 }
   | .brin _ _ _ t => { base with isMeta := t == brinMeta }
 
-/-- the names that must be printed for a flag word, restricted to the bits in `vocab` (the bits the tool has a
-name for at all — interpretation 3 of DESIGN.md section 5: unnamed bits may stay silent), in bit order -/
-def flagNamesView (am : AM) (vocab : List Nat) (flags : Nat) : List String :=
-  (pgFlagNames am).filterMap fun (b, n) => if flags.testBit b && vocab.contains b then some (shortName n) else none
+/-- the names that must be printed for a flag word: the name of EVERY set bit that PostgreSQL defines for the method
+(`pgFlagNames`), listed here in bit order (the order is not part of the property) -/
+def flagNamesView (am : AM) (flags : Nat) : List String :=
+  (pgFlagNames am).filterMap fun (b, n) => if flags.testBit b then some (shortName am n) else none
 
 inductive MetaView where
   | btree (magic version root level fastroot fastlevel : Nat)
